@@ -302,3 +302,73 @@ def install(m):
             d[k] = ETREE
         elif v is real_json:
             d[k] = JSON
+
+
+# ------------------------------------------------------------------------------------------------ numpy (shape + masked assignment only)
+
+class BoolVec:
+    def __init__(self, vals):
+        self.vals = list(vals)
+        self.shape = (len(self.vals),)
+
+    def __setitem__(self, idx, v):
+        if isinstance(idx, (list, tuple)):
+            for i in idx:
+                self.vals[self._ix(i)] = bool(v)
+        else:
+            self.vals[self._ix(idx)] = bool(v)
+
+    def _ix(self, i):
+        if not isinstance(i, int) or not (-len(self.vals) <= i < len(self.vals)):
+            raise IndexError('index %r is out of bounds for axis 0 with size %d' % (i, len(self.vals)))
+        return i
+
+    def __len__(self):
+        return len(self.vals)
+
+
+class Arr2:
+    """2-D array of opaque cell values"""
+
+    def __init__(self, rows):
+        self.rows = [list(r) for r in rows]
+        self.shape = (len(self.rows), len(self.rows[0]) if self.rows else 0)
+
+    def __setitem__(self, key, v):
+        if not (isinstance(key, tuple) and len(key) == 2):
+            raise Unsupported('array assignment form')
+        i, m = key
+        if not isinstance(i, int) or not (0 <= i < self.shape[0]):
+            raise IndexError('row index out of bounds')
+        if isinstance(m, BoolVec):
+            if len(m) != self.shape[1]:
+                raise IndexError('boolean index did not match indexed array along axis 1; size of axis is %d but size of corresponding boolean axis is %d' % (self.shape[1], len(m)))
+            for c, flag in enumerate(m.vals):
+                if flag:
+                    self.rows[i][c] = v
+        elif isinstance(m, int):
+            self.rows[i][m] = v
+        else:
+            raise Unsupported('array column index %r' % type(m).__name__)
+
+    def __getitem__(self, key):
+        if isinstance(key, tuple) and len(key) == 2 and all(isinstance(k, int) for k in key):
+            return self.rows[key[0]][key[1]]
+        raise Unsupported('array read form')
+
+
+class NumpyModule:
+    bool = bool
+    bool_ = bool
+
+    @staticmethod
+    def ones(n, dtype=None):
+        if not isinstance(n, int):
+            raise Unsupported('numpy.ones shape')
+        return BoolVec([True] * n)
+
+    def __getattr__(self, n):
+        raise Unsupported('numpy.' + n)
+
+
+NUMPY = NumpyModule()
